@@ -4,7 +4,7 @@
    compared with what the implementation produced.  Extracted separately from Check/Run.v so that the specification
    checker keeps working when the translated model does not compile. *)
 From Coq Require Import ZArith List Bool Arith.
-From SpadeV Require Import Num.Decode Num.Decode2 Geom.Pred Obs.State Obs.Spec Vmap.Model Dcel.Raw Gen.DcelOps Tri.Legalize Tri.Insert Tri.Locate Tri.InsertLine Obs.LineSpec Tri.LineIter Tri.Remove Tri.AddConstraint Query.NatNeighbor Query.FloodFill Query.FloodFillFloat Check.Codes Check.Run.
+From SpadeV Require Import Num.Decode Num.Decode2 Geom.Pred Obs.State Obs.Spec Vmap.Model Dcel.Raw Gen.DcelOps Tri.Legalize Tri.Insert Tri.Locate Tri.InsertLine Obs.LineSpec Tri.LineIter Tri.Remove Tri.AddConstraint Tri.AddSplit Query.NatNeighbor Query.FloodFill Query.FloodFillFloat Check.Codes Check.Run.
 From SpadeV Require Num.F64.
 From SpadeV Require Query.Hull Gen.Sizes.
 Import ListNotations.
@@ -472,6 +472,25 @@ Definition check_adde_model (f32 : bool) (p n : obs) (args res : list Z) : list 
   end.
 
 
+(* ---- add_constraint_and_split (split va vb) against Tri/AddSplit.v (M8).  The model is run on the previous state; its outcomes are a list only
+   because `insert` in the fallback routine starts point location at a vertex chosen by the hint generator (every start vertex is tried; the fast
+   path has exactly one outcome).  Compared: all four tables (hence the position bit patterns and payloads of the new split vertices), the
+   returned edge list, the change of num_constraints.  Calls that panic or hang (open known findings) are not compared. ---- *)
+Definition split_fuel (p : obs) : nat := let h := 4 * nH p + 24 in h * h + 2 * h + nV p + 200.
+Definition check_split_model (f32 : bool) (p n : obs) (args res : list Z) : list (tag * bool) :=
+  match args, counted res with
+  | [va; vb], Some got =>
+      let dd := dcel_of_obs p in
+      let dn := dcel_of_obs n in
+      match split_outcomes f32 888000 (split_fuel p) (fun d => seq 0 (Raw.num_vertices d)) dd (Z.to_nat va) (Z.to_nat vb) with
+      | Some outs =>
+          [(T_corr, existsb (fun o => let '(d', nc, edges) := o in
+                                      dcel_eqb d' dn && list_eqb Nat.eqb edges got && (Z.of_nat (o_nc n) =? Z.of_nat (o_nc p) + nc)%Z) outs)]
+      | None => [(T_corr, false)]
+      end
+  | _, _ => []
+  end.
+
 (* ---- rectangle / circle queries (flood fill): the result list must be the model's list, element for element.  For the vertex queries the
    first `initial` elements (the origins of the start edges, yielded in the iteration order of a HashSet) are compared as a set. ---- *)
 Definition set_eqb (a b : list nat) : bool := (length a =? length b) && forallb (fun x => memb x b) a && forallb (fun x => memb x a) b.
@@ -623,7 +642,7 @@ Definition check_rmc_model (p n : obs) (args res : list Z) : list (tag * bool) :
         let dd := dcel_of_obs p in
         let dn := dcel_of_obs n in
         let fuel := nH p * nH p + 200 in
-        match remove_constraint_edge pts fuel dd (Z.to_nat e) with
+        match Remove.remove_constraint_edge pts fuel dd (Z.to_nat e) with
         | Some (d', b) => [(T_corr, dcel_eqb d' dn && (r =? (if b then 1 else 0))%Z && (o_nc n + (if b then 1 else 0) =? o_nc p))]
         | None => [(T_corr, false)]
         end
@@ -713,6 +732,8 @@ Fixpoint run_model_steps (c : cfg) (p : obs) (k : nat) (l : list step) : list ve
       | Some n =>
         (if ((s_op st =? OP_addc)%Z || (s_op st =? OP_tryc)%Z) && negb (existsb (Z.eqb K_skip) (s_res st) || existsb (Z.eqb K_hang) (s_res st))
          then map (fun v => (k, fst v, snd v)) (check_addc_model (c_f32 c) (s_op st) p n (s_args st) (s_res st))
+         else if (s_op st =? OP_split)%Z && negb (existsb (Z.eqb K_skip) (s_res st) || existsb (Z.eqb K_panic) (s_res st) || existsb (Z.eqb K_hang) (s_res st))
+         then map (fun v => (k, fst v, snd v)) (check_split_model (c_f32 c) p n (s_args st) (s_res st))
          else if (s_op st =? OP_adde)%Z && negb (existsb (Z.eqb K_skip) (s_res st) || existsb (Z.eqb K_hang) (s_res st))
          then map (fun v => (k, fst v, snd v)) (check_adde_model (c_f32 c) p n (s_args st) (s_res st))
          else if (s_op st =? OP_prim)%Z && negb (existsb (Z.eqb K_skip) (s_res st) || existsb (Z.eqb K_panic) (s_res st) || existsb (Z.eqb K_hang) (s_res st))
